@@ -328,6 +328,26 @@ func singleFaults(sp *subjectSpec, e *env, n int, attempts int) []fault {
 	return out
 }
 
+// errValueFaults: the fatal faults with the non-sentinel error values (context.Canceled, an error
+// wrapping it, context.DeadlineExceeded, an error wrapping stream.End), at the first, a middle and the
+// at-end position of every source and every callback stage.
+func errValueFaults(sp *subjectSpec, e *env, n int) []fault {
+	var out []fault
+	for ek := 1; ek < nFatalErrKinds; ek++ {
+		for j, si := range e.srcs {
+			for _, p := range fewPositions(si.nItems, true) {
+				out = append(out, mkFatal(fkFatalSrc, j, p, ek))
+			}
+		}
+		for _, k := range sp.cbStages() {
+			for _, p := range fewPositions(n, false) {
+				out = append(out, mkFatal(fkFatalCb, k, p, ek))
+			}
+		}
+	}
+	return out
+}
+
 func posClass(f fault, n int, e *env) string {
 	limit := n
 	switch f.Kind {
@@ -442,6 +462,13 @@ func sequential(r *vkit.Report) {
 			kk := strings.Join(kinds, "+")
 			r.Count("scenarios by fault kinds", kk, 1)
 			r.Count("scenarios by subject", name, 1)
+			if o.fired {
+				for _, f := range fs {
+					if f.Kind.fatal() {
+						r.Count("fatal faults that fired, by error value", fatalErrNames[f.Err], 1)
+					}
+				}
+			}
 			nontrivial := false
 			switch o.terminal {
 			case "fatal":
@@ -466,7 +493,7 @@ func sequential(r *vkit.Report) {
 			r.Count("observations", "calls with an expired context that were served from buffered state", o.expNoWait)
 			if nontrivial {
 				for _, f := range fs {
-					r.Distinct(fmt.Sprintf("%s|%s|%s|buffered=%v", name, f.KindS, posClass(f, cfg.n, e), o.buffered))
+					r.Distinct(fmt.Sprintf("%s|%s|%s|buffered=%v", name, f.kindKey(), posClass(f, cfg.n, e), o.buffered))
 				}
 				if o.buffered {
 					r.Count("observations", "faults that hit while items were held inside the pipeline", 1)
@@ -485,8 +512,39 @@ func sequential(r *vkit.Report) {
 			}
 			record(fs, o)
 		}
+		// The error VALUE dimension: the source / callback fails on its own account with
+		// context.Canceled, an error wrapping it, context.DeadlineExceeded, an error wrapping End.
+		extras := errValueFaults(sp, e, cfg.n)
+		for _, f := range extras {
+			fs := []fault{f}
+			o := run(fs)
+			if failed {
+				return
+			}
+			record(fs, o)
+		}
 		if sp.term.reducer() {
 			return // a reducer ends at its first failure: sequences of faults add nothing
+		}
+		// ... each also after a failed-and-retried first call (expired context; transient source error)
+		for _, f := range extras {
+			for _, g := range []fault{mkFault(fkCtxDead, 0, 0), mkFault(fkTransSrc, 0, 0)} {
+				if g.Kind == fkTransSrc && len(e.srcs) == 0 {
+					continue
+				}
+				fs := []fault{f, g}
+				o := run(fs)
+				if failed {
+					return
+				}
+				record(fs, o)
+			}
+		}
+		vary := func(f fault) fault {
+			if f.Kind.fatal() && rnd.Intn(4) == 0 {
+				return mkFatal(f.Kind, f.Target, f.Pos, 1+rnd.Intn(nFatalErrKinds-1))
+			}
+			return f
 		}
 		okPair := func(a, b fault) bool {
 			if a.Kind.fatal() && b.Kind.fatal() {
@@ -519,7 +577,7 @@ func sequential(r *vkit.Report) {
 			}
 		}
 		for t := 0; t < triples && len(singles) >= 3; t++ {
-			a, b, d := singles[rnd.Intn(len(singles))], singles[rnd.Intn(len(singles))], singles[rnd.Intn(len(singles))]
+			a, b, d := vary(singles[rnd.Intn(len(singles))]), vary(singles[rnd.Intn(len(singles))]), vary(singles[rnd.Intn(len(singles))])
 			if !okPair(a, b) || !okPair(a, d) || !okPair(b, d) {
 				continue
 			}
